@@ -1,7 +1,7 @@
 (* C08/Examples.v — non-vacuity: concrete values through the models. *)
 From Coq Require Import List NArith ZArith Bool Lia.
 From Common Require Import Bytes Outcome.
-From C08 Require Import Model ModelCD ModelLL ModelSub.
+From C08 Require Import Model ModelCD ModelLL ModelSub ModelFL.
 Import ListNotations.
 Local Open Scope N_scope.
 
@@ -18,6 +18,11 @@ Example cov_read_f2 :
 Proof. vm_compute. reflexivity. Qed.
 
 Example cov_enc_refuses : M_cov_encode [(3, 1%Z); (9, 0%Z)] = Panic.
+Proof. vm_compute. reflexivity. Qed.
+
+(* an index used twice: written as coverage {0, 5} or {0, 7} (depending on the
+   map iteration order) before fixes/C08-coverage-duplicate-index.diff *)
+Example cov_enc_refuses_duplicate : M_cov_encode [(5, 1%Z); (7, 1%Z)] = Panic.
 Proof. vm_compute. reflexivity. Qed.
 
 (* ---- classdef ---- *)
@@ -135,3 +140,12 @@ Proof. vm_compute. reflexivity. Qed.
 Example gsub12_overflow_refused :
   M_gsub12_encode (S_cov_table [1]) (repeat 1 (N.to_nat 32765)) = Panic.
 Proof. vm_compute. reflexivity. Qed.
+
+(* ---- feature list ---- *)
+Example fl_example :
+  match M_fl_encode [([108; 105; 103; 97], [0; 2]); ([107; 101; 114; 110], [])] with
+  | Ok b => b = [0;2;  108;105;103;97; 0;14;  107;101;114;110; 0;22;  0;0; 0;2; 0;0; 0;2;  0;0; 0;0] /\
+            M_fl_read b 0 = Ok [([108; 105; 103; 97], [0; 2]); ([107; 101; 114; 110], [])]
+  | _ => False
+  end.
+Proof. vm_compute. split; reflexivity. Qed.
